@@ -273,7 +273,10 @@ on B2-c08 and B2-c13, was restated as an evaluation rule that has no named ancho
   of code; the evidence files say so. These rules evaluate the routine's IR with the partial evaluator on every member of a finite
   family; they do not run the library.
 * The automaton step is one call per byte; equivalence with other chunkings is rule C03.R6 / C03.R8 (two bytes in one call vs two
-  calls, from every reachable configuration) plus the no-local-state rule; longer chunks follow by induction on the carried state.
+  calls, from every reachable configuration), C03.R11 (four bytes, inside strings / escapes / comments, including the amount of
+  text appended) plus the no-local-state rule; longer chunks follow by induction on the carried state *only as far as no decision
+  uses a quantity local to the call* - F25 (`case_len`) was exactly such a decision and was found by a rule that feeds one byte per
+  call, not by the induction argument.
 * The ownership engine's contract tables are verified against the code (C05.R3) but the table of *which* functions acquire is a
   list; a new allocator wrapper must be added there (its absence shows as a drop in an instance floor, exit 2).
 * Internal functions absent from `tools/known_internal.json` are inlined before analysis; a new *external* helper is not, and
